@@ -135,8 +135,15 @@ def run(chk):
         eom = lambda t, states, a: -0.3j * a - 0.1 * a + 0.2 * t + sum(0.2 * np.trace(states[i] @ cs[i]) for i in range(nsys))
         mfs = oqupy.MeanFieldSystem(systems, field_eom=eom)
         rhos = [np.eye(dm, dtype=complex) / dm + 0.2 * np.diag([1] + [0] * (dm - 2) + [-1]) for dm in dims]
+        # coherences with a phase (the matrices are not symmetric), handed over in C or in Fortran memory order
+        for r_ in rhos:
+            r_[0, -1] += 0.1 - 0.15j
+            r_[-1, 0] += 0.1 + 0.15j
+        layout = "F" if it % 2 == 1 else "C"
+        if layout == "F":
+            rhos = [np.asfortranarray(r_) for r_ in rhos]
         a0 = 0.4 + 0.1j
-        info = {"systems": nsys, "start": start, "N": N, "dkmax": par.dkmax, "add_correlation_time": tau_}
+        info = {"systems": nsys, "start": start, "N": N, "dkmax": par.dkmax, "add_correlation_time": tau_, "initial_state_layout": layout}
         try:
             d1 = quiet(oqupy.MeanFieldTempo(mfs, baths, par, rhos, a0, start).compute, start + N * dt, progress_type="silent")
             pts = [quiet(oqupy.pt_tempo_compute, b, start, start + N * dt, parameters=par, progress_type="silent") for b in baths]
